@@ -103,7 +103,14 @@ def slicing(text, doc, acc, case):
 
     def tags(ts):
         for t in ts:
-            starts(t['location'], t['name'], 'tag', lead_blank=False)
+            # the column is that of the '@'; blanks between the '@' and the name are not part of the name ('@ x' is the tag '@x'
+            # in every implementation), so the name is read off the source with those blanks skipped
+            line, col = src(t['location'], 'tag')
+            if line is None:
+                continue
+            rest = line[col - 1:]
+            if not (rest.startswith('@') and ('@' + rest[1:].lstrip()).startswith(t['name'])):
+                acc.violation('slice-tag', case, 'tag: source at %r reads %r, expected %r' % (t['location'], rest[:len(t['name']) + 3], t['name']))
 
     def rows(rs):
         for r in rs:
